@@ -158,6 +158,9 @@ class AppendableArray:
     def close(self):
         if self.__is_init:
             self.fp.close()
+            # Don't keep the closed handle: a pickled (dill) copy of this object would
+            # re-create it on loading, and re-creating a "wb" handle truncates the file.
+            self.fp = None
 
             self.__is_init = False
 
